@@ -70,6 +70,8 @@ def ops_for(rng, coder, m, thorough, big):
         for cap in sorted({0, 1, 4, size_est - 1, size_est, size_est + 1, size_est + 9, rng.randrange(size_est + 1)}):
             if cap >= 0:
                 L.append("enc %s %d %s" % (coder, cap, s))
+    if size_est <= 2000:
+        L.append("ptok %s %s" % (coder, s))     # token through pool.Message.SetToken, then MarshalWithEncoder
     n = len(m["opts"])
     L.append("rt %s %d %s" % (coder, rng.choice([n, n + 1, max(n, 16), max(n, 64)]), s))
     if n > 500:
@@ -119,7 +121,7 @@ def shrink(art, line, clause):
     """Greedy shrinking of a message line while the judge still reports the same clause on the implementation."""
     f = line.split()
     op = f[0]
-    nhead = {"size": 2, "encall": 2, "omar": 2, "enc": 3, "rt": 3, "pool": 4}.get(op)
+    nhead = {"size": 2, "encall": 2, "omar": 2, "ptok": 2, "enc": 3, "rt": 3, "pool": 4}.get(op)
     if nhead is None:
         return line
     head, mf = f[:nhead], f[nhead:]
@@ -212,7 +214,7 @@ def explore(ctx, art):
     # 1. corpus first
     corpus = []
     for p in sorted(glob.glob(os.path.join(common.VERIF, "corpus", PROP, "*.json"))):
-        corpus += [l for l in json.load(open(p)).get("input", []) if l.split()[0] not in ("strm", "udpx")]
+        corpus += [l for l in json.load(open(p)).get("input", []) if l.split()[0] not in ENTRY_OPS]
     if corpus:
         impl, model, verd = evaluate(art, corpus, par=2)
         if impl is None:
@@ -260,6 +262,7 @@ def explore(ctx, art):
 # ---------------------------------------------------------------- the same round trips through the real entry points
 
 RX_OPTS = [4, 11, 11, 12, 15, 17, 2000, 2013, 300]
+ENTRY_OPS = ("strm", "udpx", "usrv")
 
 
 def rx_msg(rng, big=False):
@@ -313,6 +316,24 @@ def gen_entry_lines(ctx):
                 steps.append("d:%d" % rng.randrange(made - 1))      # duplicate of an EARLIER request: another reply was sent since
         steps.append("d:0")
         lines.append("udpx %d %s" % (len(steps), " ".join(steps)))
+    # a real udp.Server on a loopback socket: single datagrams around the MTU (1472) and the maximum message size
+    for k in range(300 if thorough else 45):
+        maxsize = rng.choice([0, 0, 0, 3000, 1600, 1473])
+        top = 65000 if maxsize == 0 else maxsize
+        sizes = [rng.choice([1400, 1471, 1472, 1473, 1474, 1500, 2000, 2048, 4096, 9000, 20000, 40000, top - 1, top,
+                             rng.randrange(20, 3000)]) for _ in range(rng.choice([1, 2, 3]))]
+        msgs = []
+        for i, sz in enumerate(sizes):
+            sz = max(20, min(sz, top))
+            m = rx_msg(rng)
+            m["typ"] = rng.randrange(2)
+            m["mid"] = (7000 + 13 * k + i) % 65536
+            m["code"] = rng.choice([1, 2, 3, 4])
+            m["pay"] = b""
+            base = len(G.encode_udp(m)) + 1
+            m["pay"] = bytes(rng.randrange(256) for _ in range(max(1, sz - base)))
+            msgs.append(m)
+        lines.append("usrv %d %d %s" % (maxsize, len(msgs), " ".join(G.fmt_msg(m) for m in msgs)))
     return lines
 
 
@@ -351,7 +372,7 @@ def explore_entry(ctx, art):
         return 0
     corpus = []
     for p in sorted(glob.glob(os.path.join(common.VERIF, "corpus", PROP, "*.json"))):
-        corpus += [l for l in json.load(open(p)).get("input", []) if l.split()[0] in ("strm", "udpx")]
+        corpus += [l for l in json.load(open(p)).get("input", []) if l.split()[0] in ENTRY_OPS]
     lines = corpus + gen_entry_lines(ctx)
     impl, model, verd = evaluate_entry(ctx, art, lines)
     if impl is None:
@@ -375,7 +396,8 @@ def explore_entry(ctx, art):
                 ctx.broken.append(("model", "C01 judge could not read the observation", "%s => %s" % (l[:200], o[:200])))
             if verd[i].startswith("violates"):
                 hits.setdefault(verd[i].split(" ", 1)[1], []).append((l, o))
-    what = {"stream-roundtrip": "a stream of encoded well-formed messages was not delivered as the same messages",
+    what = {"datagram-roundtrip": "a well-formed message sent as one datagram to a real udp server did not reach the handler as the same message",
+            "stream-roundtrip": "a stream of encoded well-formed messages was not delivered as the same messages",
             "reply-roundtrip": "a datagram the connection sent does not decode to the message the application set for that exchange"}
     for clause, hs in sorted(hits.items()):
         ctx.count("violations-" + clause, len(hs))
@@ -420,7 +442,7 @@ def replay(ctx, rep):
     if not lines:
         print("replay file names no failing input:", rep.get("no_longer_checks"))
         return common.finish(ctx) if not art["proofs_ok"] else 0
-    if lines[0].split()[0] in ("strm", "udpx"):
+    if lines[0].split()[0] in ENTRY_OPS:
         impl, model, verd = evaluate_entry(ctx, art, lines, tag="replay")
     else:
         impl, model, verd = evaluate(art, lines)
